@@ -8,12 +8,46 @@ def repo_commits(prefix):
     return [l.split()[0] for l in out.splitlines() if l.split(" ", 1)[1].startswith(prefix)]
 
 # property -> (level, technique, level text, level note, design ref)
+BUBBLE = "trusts Go 1.26.8 runtime and testing/synctest quiescence (all goroutines durably blocked), the harness channel vchan and the hook controller; schedules between hook points are the Go scheduler's; holds on the executions explored only"
+INPUT = "trusts Go 1.26.8 runtime, encoding/json and the independent reference oracle written from the documentation; holds on the inputs enumerated/sampled only"
+# property -> (level, technique, level text, level note)
 CHECKS = {
- "C03": ("exploration",
-         "runtime monitor: handler enter/exit event log checked at synctest quiescent points over enumerated scripts x release orders x delay-bounded schedules, race detector on",
-         "Every execution of the real server on enumerated gated scripts is judged at each quiescent point by an ordering oracle (notification exit before later enter) and a work-conservation oracle; schedules are widened by parking each hook visit. Holds on the executions explored, not beyond the script/delay bounds.",
-         "trusts Go 1.26.8 runtime, testing/synctest quiescence, the harness channel; schedules between hook points are the Go scheduler's",
-         "DESIGN.md section 5 C03"),
+ "C01": ("exploration", "runtime monitor: reference response calculator vs bytes emitted by a real server at synctest quiescent points, enumerated scripts x gate-release orders x delay-bounded schedules, race detector",
+         "Every execution of the real server on enumerated message scripts is compared at each quiescent point with an exact per-message response prediction (unique ids/tags/tokens): nothing early, nothing lost or duplicated, array flag and order, handlers exactly once.", BUBBLE),
+ "C02": ("exploration", "runtime monitor: independent JSON-RPC member classifier vs live server output + handler-invocation log + liveness probe, product of field variants and seeded byte mutations",
+         "Each input record is sent to a live server; emitted bytes, handler invocation counts and a follow-up probe are judged by a reference classifier written from the spec/README; the variant product is exhaustive in the thorough tier, sampled in quick.", INPUT),
+ "C03": ("exploration", "runtime monitor: handler enter/exit event log checked at synctest quiescent points over enumerated scripts x release orders x delay-bounded schedules, race detector",
+         "Ordering oracle (notification exit before later enter) and work-conservation oracle at every quiescent point of every execution; each hook visit parked in turn.", BUBBLE),
+ "C04": ("exploration", "runtime monitor: raw scripted peer with unique reply tokens vs values returned by real Client.Call/Batch, enumerated reply permutations/partitions/extras, pending-set snapshot, delay-bounded schedules",
+         "All permutations and groupings of replies (plus duplicates, malformed, unknown ids, server requests) for small operation sets; each slot must return the first token sent for its id.", BUBBLE),
+ "C05": ("fault_enumeration", "runtime monitor: state-set reference model filtered by observed API returns / hooks / transmissions after every event; k-th Send and k-th Recv failure enumerated for every history",
+         "Histories of replies, cancellations, deadlines, Close, EOF, transport failures and races are executed against the real client with a failure injected at every channel operation; exactly-once return, OnCancel/OnStop accounting and leak-freedom are decided at quiescent points.", BUBBLE),
+ "C06": ("exploration", "runtime monitor: slot counter at the library's own invoke hook sites, checked online and at quiescent points; enumerated batch shapes, release orders, CancelRequest of waiters",
+         "The number of invocations holding a semaphore slot is bounded online and equals min(limit, runnable) at every quiescent point; cancelled waiters never run.", BUBBLE),
+ "C07": ("exploration", "runtime monitor: sequential reservation reference model (state set) vs reserved-id snapshot, replies and handler contexts after every operation of enumerated histories",
+         "All short histories of calls with reused ids, batches, CancelRequest, gate releases and parked dispatch; the observed reserved-id set, replies and handler contexts must be admissible under the model at every step.", BUBBLE),
+ "C08": ("fault_enumeration", "runtime monitor + crash attribution: scenarios x stop cause injected at every Recv/Send x channel flavour x post-stop traffic x restart, judged at quiescent points; worker death = violation",
+         "A failure is injected at every channel operation of each scenario (plus Stop and peer close) and the shutdown contract (status, handler completion, context cancellation, notification delivery, no leak, restart) is checked.", BUBBLE),
+ "C09": ("exploration", "runtime monitor: push reference model vs Callback returns, emitted records and outstanding-callback snapshot after every operation of enumerated histories (virtual time for deadlines)",
+         "All short histories of callbacks, replies (late, duplicate, unknown), cancellations, deadlines, colliding client calls and Stop; emitted records must be exactly those the pushes and calls account for.", BUBBLE),
+ "C10": ("exploration", "runtime monitor: instrumented channel with online overlap counters + race-detector shadow fields + record validator under real-time stress and delay-bounded bubble scenarios",
+         "The channel the library is given detects a second concurrent Send/Recv, Send||Close, a second Close and incomplete records at the instant they happen, under stress and under every single-hook delay.", "trusts the Go race detector and the harness channel; overlap is only detected when it actually occurs in an explored execution"),
+ "C11": ("exploration", "runtime monitor: chunk-controlled reader under every cut set; received records compared byte for byte with sent records",
+         "Round trip of pipelined record sequences through every framing under exhaustive small cut sets and boundary sizes.", INPUT),
+ "C12": ("fault_enumeration", "runtime monitor: three reference decoders vs Recv results on exhaustive token strings, absurd lengths, every truncation point; crash attribution by journal",
+         "Every token string up to the bound, every truncation point of valid streams and absurd lengths are decoded by the real framings and compared with reference decoders; panics and fatal errors are violations.", INPUT),
+ "C14": ("exploration", "runtime monitor: grammar of handler errors through a live server/client, reference ErrorCode classifier; all 2^32 codes in thorough",
+         "Errors generated from a grammar cross the real wire; code, message, data and sentinel identity are compared; the pure code identity is exhaustive in thorough.", INPUT),
+ "C15": ("exploration", "runtime monitor: reflect.MakeFunc functions capture arguments; encoding/json oracle on fresh values; Check accept/reject grammar",
+         "Signatures x options x params are executed through the real wrapper and compared with an encoding/json oracle; no panics.", INPUT),
+ "C16": ("exploration", "runtime monitor: captured arguments / decoded targets vs encoding/json oracle for Positional, Args, Obj",
+         "Arities, names and params shapes are enumerated and compared with per-argument decode oracles; untouched targets checked with sentinels.", INPUT),
+ "C17": ("exploration", "runtime monitor: reference resolver vs identity tags returned through a live server; recording assigners observe InboundRequest/ServerFromContext",
+         "All method-name strings over the boundary alphabet, as names and map keys, nested ServiceMaps, both DisableBuiltin settings.", INPUT),
+ "C19": ("exploration", "runtime monitor: reference query-value typer vs ParseQuery; live Getter status mapping; HTTP-channel scenarios in synctest bubbles with body-close accounting and leak scan",
+         "Exhaustive short query values plus grammar-directed ones; Getter status/body; jhttp.Channel equivalence with a direct connection and cleanup at Close.", BUBBLE),
+ "C20": ("exploration", "runtime monitor: reference model of Loop vs logs of instrumented services/accepter at quiescent points; enumerated scripts, delay-bounded schedules, NetAccepter over in-memory listener",
+         "All short scripts of connects, closes, cancels, accepter errors and Assigner failures; Finish exactly once after exit, Loop returns last.", BUBBLE),
 }
 PENDING = {}
 
@@ -23,7 +57,8 @@ def main():
     for p in props:
         pid = p["id"]
         if pid in CHECKS:
-            level, tech, text, note, ref = CHECKS[pid]
+            level, tech, text, note = CHECKS[pid]
+            ref = "DESIGN.md section 5 " + pid
             checks.append({
                 "property_id": pid,
                 "quick_cmd": "./vcheck %s quick" % pid,
